@@ -237,3 +237,15 @@ Proof.
   - vm_compute. discriminate.
   - vm_compute. reflexivity.
 Qed.
+
+(* a read that RACES with a write (rows selected before the write, iterator handed back and cached after
+   it: the entry's LastModified equals the write's timestamp): the next run is partial (the first change
+   has left the window) and its markers carry the RUN time, which is what discards that entry *)
+Example staleness_bounded_racing_read :
+  let h := [Write [mkTup 7 1 2 1 false]; Tick 400; RaceRead w_k1 [w_t 2] true 0; InvStart; InvRead] in
+  cfg_ok x_cfg_i = true /\ hist_ok x_cfg_i (h ++ [InvFinish]) init_state = true /\
+  s_ic (run_ops x_cfg_i h init_state) = [(w_k1, mkIE 402 702 1)] /\
+  snd (step x_cfg_i (run_ops x_cfg_i h init_state) InvFinish) = OFin (DPartial [MOR 1 1 1; MUOT 2 1]) /\
+  snd (step x_cfg_i (run_ops x_cfg_i (h ++ [InvFinish]) init_state) (Request w_q1 true 0 []))
+  = OAns [(w_k1, 2%nat)] [false] [false] false false.
+Proof. repeat split; vm_compute; reflexivity. Qed.
